@@ -11,6 +11,17 @@
   function `driver_c15` executes and the C15 theorems are about.  A model error corresponds to the exception class
   `errExc` names.  Dictionaries are association lists with distinct keys (`KeysNodup`, which a Python `dict` guarantees).
   A source change that alters one of these functions makes the corresponding theorem fail.
+
+  `create_chemistry`, the thin wrappers `create_temperature_profile` / `create_pressure_profile` and the glue of
+  `ParameterParser` (`generate_chemistry_profile / pressure_profile / temperature_profile / planet / star / optimizer /
+  observation / instrument / model`, `create_snr`) are tied too: the parser object is `Obj.parser f` (`f` = the typed file,
+  `self._raw_config.dict()` = `embFile f`, a fresh dictionary on every call), each `generate_<x>` is the corresponding slot
+  of `Factory.expected` (`optV`: `None` for an absent section) with the constructor calls left to the world
+  (`profileV`, `lenientV`, `observationV`, `instrumentV`, `modelV`); the `…_eq_…` theorems identify these with
+  `Factory.createProfile / createLenient / createChemistry / generateObservation / generateInstrument / createModel` for
+  every world whose constructor calls are the model's `instantiate`.  In `generate_observation` / `generate_instrument`
+  the names `observation_config` / `inst_config` alias an entry of the private copy `config` (spec key `unshared`): the
+  copy is not read again before the function returns.
 -/
 import Proofs.C15SrcLemmas
 import Props.C15
@@ -20,7 +31,7 @@ set_option linter.unusedSimpArgs false
 
 namespace Taurex.C15Src
 open Taurex.Gen Taurex.Gen.Dyn
-open Taurex.Factory (Scalar Value Config Klass Registry SectionReg Resolved Err Customs Component)
+open Taurex.Factory (Scalar Value Config Klass Registry SectionReg Resolved Err Customs Component Sec InputFile)
 
 /-! ## `ParameterParser.transform` -/
 
@@ -720,10 +731,6 @@ theorem src_create_prior (w : World) (prior : V) (pname : String) (args : Config
 
 /-! ## contributions -/
 
-/-- a `[Model]` section as the Python dictionary: its scalar entries, then its sub-sections (dictionaries) -/
-def embSec (scalars : Config) (subs : List (String × Config)) : List (V × V) :=
-  embCfg scalars ++ subs.map (fun sc => (.str sc.1, .dict (embCfg sc.2)))
-
 /-- a loop with `break` whose body, for the first element satisfying `P`, computes a new state and breaks (or raises),
     and falls through unchanged for the others -/
 theorem forIn_find_brk {σ : Type} (cls : List Klass) (P : Klass → Bool) (R : σ → Klass → M σ) (st : σ)
@@ -1123,10 +1130,6 @@ theorem contribsV_eq_contribsOf (w : World) (sr : SectionReg) (comp : Component 
 
 /-! ## the model -/
 
-/-- the sub-sections of a `[Model]` section as dictionary entries -/
-def subsEmb (subs : List (String × Config)) : List (V × V) :=
-  subs.map (fun sc => (.str sc.1, .dict (embCfg sc.2)))
-
 theorem embSec_eq (scalars : Config) (subs : List (String × Config)) :
     embSec scalars subs = embCfg scalars ++ subsEmb subs := rfl
 
@@ -1323,5 +1326,1174 @@ theorem src_create_model (w : World) (hw : WorldOK w) (hcall : CallOK w) (scalar
               intro x Y; cases x <;> rfl
             exact hassoc _ _
           · simp only [ha, Bool.false_eq_true, if_false, bind_err]
+
+/-! ## `create_chemistry` -/
+
+/-- `create_profile` up to the constructor call (the RHS of `src_create_profile` without the popped config) -/
+def profileV (w : World) (sec field : String) (cfg : Config) : M V :=
+  match Factory.determineKlass (w.reg.sec sec) w.customs sec field cfg with
+  | .error e => .error (errExc e)
+  | .ok (cfg1, r) =>
+    match Factory.createKlass (kwargDictP r) cfg1 with
+    | .error e => .error (errExc e)
+    | .ok kw => w.call (robjO r) [] (embKw kw)
+
+/-- the popped config `create_profile` hands back next to the object -/
+def poppedCfg (w : World) (sec field : String) (cfg : Config) : Config :=
+  match Factory.determineKlass (w.reg.sec sec) w.customs sec field cfg with
+  | .error _ => []
+  | .ok (cfg1, _) => cfg1
+
+/-- `src_create_profile` with the two results (object, popped section) separated -/
+theorem src_create_profile_split (w : World) (hw : WorldOK w) (name sec field : String) (cfg : Config) (f : V → M V)
+    (hc : KeysNodup cfg) (h1 : (name, sec) ∈ genericBases) (h2 : (name, sec) ∈ mixinBases) :
+    SrcC15.create_profile w.ext (.dict (embCfg cfg)) f (.obj (.base name sec)) (.str field)
+      = profileV w sec field cfg >>= fun o => pure (o, .dict (embCfg (poppedCfg w sec field cfg))) := by
+  rw [src_create_profile w hw name sec field cfg f hc h1 h2]
+  unfold profileV poppedCfg
+  cases Factory.determineKlass (w.reg.sec sec) w.customs sec field cfg with
+  | error e => rfl
+  | ok p =>
+    obtain ⟨cfg1, r⟩ := p
+    simp only []
+    cases Factory.createKlass (kwargDictP r) cfg1 with
+    | error e => rfl
+    | ok kw => rfl
+
+/-- the gas profiles `create_chemistry` builds from the sub-sections, constructor calls left to the world -/
+def gasesV (w : World) : List (String × Config) → M (List V)
+  | [] => .ok []
+  | sub :: rest => do
+    let g ← profileV w "gas" "gas_type" (Factory.dictSet sub.2 "molecule_name" (.scalar (.str sub.1)))
+    let gs ← gasesV w rest
+    pure (g :: gs)
+
+/-- first loop of `create_chemistry`, scalar entries: nothing happens -/
+theorem chem_scalars (body : V × V → V → M (V × V)) (st : V × V)
+    (hb : ∀ k v, Dyn.Val.isTy .dict v = false → body st (.tuple [k, v]) = .ok st) :
+    ∀ (sc : Config), Dyn.forM ((embCfg sc).map (fun e => Dyn.Val.tuple [e.1, e.2])) st body = .ok st
+  | [] => rfl
+  | kv :: t => by
+    have hnd : Dyn.Val.isTy .dict (emb kv.2) = false := by
+      cases h : kv.2 with
+      | scalar s => cases s <;> rfl
+      | list l => rfl
+      | other r => rfl
+      | ref r => rfl
+    simp only [embCfg, List.map_cons, Dyn.forM, hb _ _ hnd, bind_ok]
+    exact chem_scalars body st hb t
+
+/-- first loop of `create_chemistry`, sub-sections: the key is recorded, the gas is built and appended -/
+theorem chem_subs (w : World) (body : V × V → V → M (V × V)) (all : List (String × Config))
+    (hb : ∀ sub ∈ all, ∀ ck gs, body (.list ck, .list gs) (.tuple [.str sub.1, .dict (embCfg sub.2)])
+      = profileV w "gas" "gas_type" (Factory.dictSet sub.2 "molecule_name" (.scalar (.str sub.1))) >>= fun g =>
+          .ok (.list (ck ++ [.str sub.1]), .list (gs ++ [g]))) :
+    ∀ (subs : List (String × Config)) (ck gs : List V), (∀ sub ∈ subs, sub ∈ all) →
+      Dyn.forM ((subsEmb subs).map (fun e => Dyn.Val.tuple [e.1, e.2])) (.list ck, .list gs) body
+        = gasesV w subs >>= fun gl => .ok (.list (ck ++ subs.map (fun sc => (Dyn.Val.str sc.1 : V))), .list (gs ++ gl))
+  | [], ck, gs, _ => by simp [subsEmb, Dyn.forM, gasesV]
+  | sub :: rest, ck, gs, hall => by
+    simp only [subsEmb, List.map_cons, Dyn.forM, hb sub (hall sub List.mem_cons_self), gasesV]
+    cases profileV w "gas" "gas_type" (Factory.dictSet sub.2 "molecule_name" (.scalar (.str sub.1))) with
+    | error e => rfl
+    | ok g =>
+      have := chem_subs w body all hb rest (ck ++ [.str sub.1]) (gs ++ [g]) (fun x hx => hall x (List.mem_cons_of_mem _ hx))
+      simp only [subsEmb] at this
+      simp only [bind_ok, this]
+      cases gasesV w rest with
+      | error e => rfl
+      | ok gl => simp [List.append_assoc]
+
+/-- second loop of `create_chemistry`: `del config[k]` for every recorded sub-section key leaves the scalar entries -/
+theorem chem_del (w : World) (sc : Config) (body : V → V → M V)
+    (hb : ∀ c k, body c k = Dyn.delItem w.ext c k) :
+    ∀ (subs : List (String × Config)), ((sc.map (·.1)) ++ subs.map (·.1)).Nodup →
+      Dyn.forM (subs.map (fun s => (Dyn.Val.str s.1 : V))) (.dict (embCfg sc ++ subsEmb subs)) body
+        = .ok (.dict (embCfg sc))
+  | [], _ => by simp [subsEmb, Dyn.forM]
+  | sub :: rest, hn => by
+    have hn' : ((sc.map (·.1)) ++ rest.map (·.1)).Nodup := by
+      apply List.Nodup.sublist _ hn
+      exact List.Sublist.append (List.Sublist.refl _) (by simp)
+    have hsc : sub.1 ∉ sc.map (·.1) := by
+      intro h
+      exact (List.nodup_append.mp hn).2.2 _ h _ (by simp) rfl
+    have hrest : sub.1 ∉ rest.map (·.1) := by
+      have := (List.nodup_append.mp hn).2.1
+      simp only [List.map_cons] at this
+      exact (List.nodup_cons.mp this).1
+    have hfree : KeyFree (subsEmb rest) sub.1 := by
+      intro e he
+      simp only [subsEmb, List.mem_map] at he
+      obtain ⟨x, hx, rfl⟩ := he
+      refine ⟨x.1, rfl, ?_⟩
+      intro heq
+      exact hrest (heq ▸ List.mem_map_of_mem (f := (·.1)) hx)
+    have hfilter : sc.filter (·.1 != sub.1) = sc := by
+      apply List.filter_eq_self.mpr
+      intro kv hkv
+      have : kv.1 ≠ sub.1 := fun heq => hsc (heq ▸ List.mem_map_of_mem (f := (·.1)) hkv)
+      simp [this]
+    have hdel : Dyn.delItem w.ext (.dict (embCfg sc ++ subsEmb (sub :: rest))) (.str sub.1)
+        = .ok (.dict (embCfg sc ++ subsEmb rest)) := by
+      have hhas : dictHas (embCfg sc ++ subsEmb (sub :: rest)) (.str sub.1) = true := by
+        simp [dictHas, subsEmb]
+      have hd : dictDel (embCfg sc ++ subsEmb (sub :: rest)) (.str sub.1) = embCfg sc ++ subsEmb rest := by
+        have h1 := dictDel_append sc (subsEmb rest) sub.1 hfree
+        rw [hfilter] at h1
+        have h2 : dictDel (embCfg sc ++ subsEmb (sub :: rest)) (.str sub.1)
+            = dictDel (embCfg sc ++ subsEmb rest) (.str sub.1) := by
+          simp [dictDel, subsEmb, List.filter_append, List.filter_cons]
+        rw [h2, h1]
+      simp only [Dyn.delItem, hashable_str, if_true, hhas, hd, pure_ok]
+    simp only [List.map_cons, Dyn.forM, hb, hdel, bind_ok]
+    exact chem_del w sc body hb rest hn'
+
+/-- `obj.addGas(g)` for every gas profile -/
+def addGases (w : World) (obj : V) (gs : List V) : M Unit :=
+  Dyn.forM gs () (fun _ g => Dyn.callMethod w.ext obj "addGas" [g] [] >>= fun _ => pure ())
+
+/-- **`create_chemistry(config)`** on a `[Chemistry]` section (scalars, then sub-sections): every sub-section is a gas
+    profile — `molecule_name` set to its header, then the strict `create_profile` with selector `gas_type` (`gasesV`, in
+    file order; the first failure ends the function); the sub-section keys are deleted from the section; what is left is
+    the chemistry, built by the strict `create_profile` with selector `chemistry_type`; the gases are added
+    (`obj.addGas(g)`, in order) exactly when `hasattr(obj, 'addGas')`; the popped section is handed back.
+    ALIAS (`unshared=['new_value']` in the spec): `new_value = value` is a second reference to the entry `config[key]`; the
+    translation re-binds only `new_value`.  That is faithful because the entry is never read again: the only later uses of
+    `config` are `del config[k]` for exactly these keys and, after that, `create_profile(config, …)`. -/
+theorem src_create_chemistry (w : World) (hw : WorldOK w) (scalars : Config) (subs : List (String × Config))
+    (hn : ((scalars.map (·.1)) ++ subs.map (·.1)).Nodup) (hsubs : ∀ sub ∈ subs, KeysNodup sub.2) :
+    SrcC15.create_chemistry w.ext (.dict (embSec scalars subs))
+      = gasesV w subs >>= fun gs =>
+        profileV w "chemistry" "chemistry_type" scalars >>= fun obj =>
+        (if w.hasattr obj "addGas" then addGases w obj gs else pure ()) >>= fun _ =>
+        pure (obj, .dict (embCfg (poppedCfg w "chemistry" "chemistry_type" scalars))) := by
+  unfold SrcC15.create_chemistry
+  have hitems : Dyn.m_items w.ext (Dyn.Val.dict (embSec scalars subs))
+      = .ok ((embCfg scalars).map (fun e => Dyn.Val.tuple [e.1, e.2]) ++ (subsEmb subs).map (fun e => Dyn.Val.tuple [e.1, e.2])) := by
+    simp [Dyn.m_items, embSec, subsEmb]
+  have hgas := ext_global_base w "Gas" "gas" (by decide) (by decide) (by decide)
+  have hchem := ext_global_base w "Chemistry" "chemistry" (by decide) (by decide) (by decide)
+  simp only [hitems, bind_ok, forM_append]
+  rw [chem_scalars _ _ ?hs scalars, bind_ok, chem_subs w _ subs ?hb subs [] [] (fun _ h => h)]
+  case hs =>
+    intro k v hv
+    simp only [Dyn.unpack2, Dyn.unpack, Dyn.iter, pure_ok, bind_ok, List.length_cons, List.length_nil, if_true, hv,
+      Bool.false_eq_true, if_false]
+  case hb =>
+    intro sub hsub ck gs
+    have hset : (Dyn.Val.str sub.1 : V) = emb (.scalar (.str sub.1)) := rfl
+    simp only [Dyn.unpack2, Dyn.unpack, Dyn.iter, pure_ok, bind_ok, List.length_cons, List.length_nil, if_true,
+      Dyn.Val.isTy, Dyn.m_append, Dyn.setItem, hashable_str, hgas]
+    rw [hset, dictSet_emb sub.2 (hsubs sub hsub), src_create_profile_split w hw "Gas" "gas" "gas_type" _ _
+      (nodup_dictSet sub.2 (hsubs sub hsub) _ _) (by decide) (by decide)]
+    cases profileV w "gas" "gas_type" (Factory.dictSet sub.2 "molecule_name" (Value.scalar (Scalar.str sub.1))) with
+    | error e => rfl
+    | ok g => rfl
+  cases gasesV w subs with
+  | error e => rfl
+  | ok gs =>
+    simp only [bind_ok, List.nil_append, Dyn.iter, pure_ok]
+    have hsec : (Dyn.Val.dict (embSec scalars subs) : V) = .dict (embCfg scalars ++ subsEmb subs) := rfl
+    rw [hsec, chem_del w scalars _ (fun c k => by simp only [bind_ok_right]) subs hn]
+    simp only [bind_ok, hchem]
+    rw [src_create_profile_split w hw "Chemistry" "chemistry" "chemistry_type" scalars _ (List.nodup_append.mp hn).1
+      (by decide) (by decide)]
+    cases profileV w "chemistry" "chemistry_type" scalars with
+    | error e => rfl
+    | ok obj =>
+      simp only [bind_ok, pure_ok, ext_hasattr, Dyn.truthy]
+      cases w.hasattr obj "addGas" with
+      | false => rfl
+      | true =>
+        simp only [if_true, addGases, pure_ok]
+        generalize (Dyn.forM gs () _ : M Unit) = x
+        cases x <;> rfl
+
+/-- `profileV` is the model's `createProfile` once the constructor calls are the model's `instantiate` (`comp` = how a
+    constructed component is seen as a value) and parameter names are distinct -/
+theorem profileV_eq_createProfile (w : World) (comp : Component → V)
+    (hinst : ∀ r kw, w.call (robjO r) [] (embKw kw) = embE comp (Factory.instantiate r kw))
+    (sec field : String) (cfg : Config)
+    (hnd : ∀ cfg1 k, Factory.determineKlass (w.reg.sec sec) w.customs sec field cfg = .ok (cfg1, .plain k) →
+      KeysNodup k.kwargs) :
+    profileV w sec field cfg = embE comp (Factory.createProfile (w.reg.sec sec) w.customs sec field cfg) := by
+  unfold profileV Factory.createProfile
+  cases hd : Factory.determineKlass (w.reg.sec sec) w.customs sec field cfg with
+  | error e => rfl
+  | ok p =>
+    obtain ⟨cfg1, r⟩ := p
+    have hk : kwargDictP r = Factory.kwargDict r := kwargDictP_eq r (fun k hr => hnd cfg1 k (hr ▸ hd))
+    simp only [hk, bind, Except.bind]
+    cases Factory.createKlass (Factory.kwargDict r) cfg1 with
+    | error e => rfl
+    | ok kw =>
+      simp only [hinst]
+
+/-- distinct parameter names for every plain class a selector resolves to (the language guarantees it) -/
+def ParamsNodup (w : World) : Prop :=
+  ∀ sec field cfg cfg1 k, Factory.determineKlass (w.reg.sec sec) w.customs sec field cfg = .ok (cfg1, .plain k) →
+    KeysNodup k.kwargs
+
+theorem gasesV_eq (w : World) (comp : Component → V)
+    (hinst : ∀ r kw, w.call (robjO r) [] (embKw kw) = embE comp (Factory.instantiate r kw)) (hnd : ParamsNodup w)
+    (subs : List (String × Config)) :
+    gasesV w subs = embE (fun gs => gs.map comp) (subs.mapM (fun sub =>
+      Factory.createProfile (w.reg.sec "gas") w.customs "gas" "gas_type"
+        (Factory.dictSet sub.2 "molecule_name" (.scalar (.str sub.1))))) := by
+  induction subs with
+  | nil => rfl
+  | cons sub rest ih =>
+    simp only [gasesV, List.mapM_cons, ih, profileV_eq_createProfile w comp hinst "gas" "gas_type" _ (hnd _ _ _)]
+    cases Factory.createProfile (w.reg.sec "gas") w.customs "gas" "gas_type"
+        (Factory.dictSet sub.2 "molecule_name" (.scalar (.str sub.1))) with
+    | error e => rfl
+    | ok g =>
+      simp only [embE, bind_ok]
+      cases rest.mapM (fun sub => Factory.createProfile (w.reg.sec "gas") w.customs "gas" "gas_type"
+        (Factory.dictSet sub.2 "molecule_name" (.scalar (.str sub.1)))) <;> rfl
+
+/-- **`create_chemistry(config)`** is `Factory.createChemistry` (for every world whose constructor calls are the model's
+    `instantiate`, `comp` being how a component is seen as a value, and whose `hasattr(obj, 'addGas')` is the class's
+    `hasAddGas` column): every sub-section is a gas profile named by its header (`molecule_name`), built by the strict
+    `create_profile` with selector `gas_type`; the sub-sections are deleted, the rest is the chemistry, built by the strict
+    `create_profile` with selector `chemistry_type`; the gases are added exactly when the chemistry has `addGas` -/
+theorem src_create_chemistry_model (w : World) (hw : WorldOK w) (scalars : Config) (subs : List (String × Config))
+    (hn : ((scalars.map (·.1)) ++ subs.map (·.1)).Nodup) (hsubs : ∀ sub ∈ subs, KeysNodup sub.2)
+    (comp : Component → V)
+    (hinst : ∀ r kw, w.call (robjO r) [] (embKw kw) = embE comp (Factory.instantiate r kw)) (hnd : ParamsNodup w)
+    (hattr : ∀ r kw c, Factory.instantiate r kw = .ok c → w.hasattr (comp c) "addGas" = Factory.resolvedHasAddGas r) :
+    (SrcC15.create_chemistry w.ext (.dict (embSec scalars subs)) >>= fun p => pure p.1)
+      = match Factory.createChemistry w.reg w.customs ⟨scalars, subs⟩ with
+        | .error e => .error (errExc e)
+        | .ok g => (if g.added then addGases w (comp g.chemistry) (g.gases.map comp) else pure ()) >>= fun _ =>
+            pure (comp g.chemistry) := by
+  rw [src_create_chemistry w hw scalars subs hn hsubs, gasesV_eq w comp hinst hnd]
+  unfold Factory.createChemistry profileV
+  simp only [bind, Except.bind]
+  cases subs.mapM (fun sub => Factory.createProfile (w.reg.sec "gas") w.customs "gas" "gas_type"
+        (Factory.dictSet sub.2 "molecule_name" (.scalar (.str sub.1)))) with
+  | error e => rfl
+  | ok gs =>
+    simp only [embE]
+    cases hd : Factory.determineKlass (w.reg.sec "chemistry") w.customs "chemistry" "chemistry_type" scalars with
+    | error e => rfl
+    | ok p =>
+      obtain ⟨cfg1, r⟩ := p
+      have hk : kwargDictP r = Factory.kwargDict r := kwargDictP_eq r (fun k hr => hnd _ _ _ cfg1 k (hr ▸ hd))
+      simp only [hk]
+      cases Factory.createKlass (Factory.kwargDict r) cfg1 with
+      | error e => rfl
+      | ok kw =>
+        simp only [hinst]
+        cases hi : Factory.instantiate r kw with
+        | error e => rfl
+        | ok c =>
+          simp only [embE, hattr r kw c hi, pure, Except.pure]
+          cases Factory.resolvedHasAddGas r with
+          | false => rfl
+          | true =>
+            simp only [if_true]
+            cases addGases w (comp c) (gs.map comp) <;> rfl
+
+/-! ## the thin wrappers and `ParameterParser.generate_*` -/
+
+/-- `create_temperature_profile(config)` is `create_profile` on the registry section "temperature", selector `profile_type` -/
+theorem src_create_temperature_profile (w : World) (hw : WorldOK w) (cfg : Config) (hc : KeysNodup cfg) :
+    SrcC15.create_temperature_profile w.ext (.dict (embCfg cfg))
+      = profileV w "temperature" "profile_type" cfg >>= fun o =>
+          pure (o, .dict (embCfg (poppedCfg w "temperature" "profile_type" cfg))) := by
+  unfold SrcC15.create_temperature_profile
+  have hg := ext_global_base w "TemperatureProfile" "temperature" (by decide) (by decide) (by decide)
+  simp only [hg, bind_ok]
+  rw [src_create_profile_split w hw "TemperatureProfile" "temperature" "profile_type" cfg _ hc (by decide) (by decide)]
+  cases profileV w "temperature" "profile_type" cfg <;> rfl
+
+/-- `create_pressure_profile(config)` is `create_profile` on the registry section "pressure", selector `profile_type` -/
+theorem src_create_pressure_profile (w : World) (hw : WorldOK w) (cfg : Config) (hc : KeysNodup cfg) :
+    SrcC15.create_pressure_profile w.ext (.dict (embCfg cfg))
+      = profileV w "pressure" "profile_type" cfg >>= fun o =>
+          pure (o, .dict (embCfg (poppedCfg w "pressure" "profile_type" cfg))) := by
+  unfold SrcC15.create_pressure_profile
+  have hg := ext_global_base w "PressureProfile" "pressure" (by decide) (by decide) (by decide)
+  simp only [hg, bind_ok]
+  rw [src_create_profile_split w hw "PressureProfile" "pressure" "profile_type" cfg _ hc (by decide) (by decide)]
+  cases profileV w "pressure" "profile_type" cfg <;> rfl
+
+/-- a lenient creator (`klass(**config)`) up to the constructor call -/
+def lenientV (w : World) (sec field : String) (cfg : Config) : M V :=
+  match Factory.determineKlass (w.reg.sec sec) w.customs sec field cfg with
+  | .error e => .error (errExc e)
+  | .ok (cfg1, r) => w.call (robjO r) [] (embKw cfg1)
+
+/-- the lenient creators with the two results (object, popped section) separated -/
+theorem src_create_star_split (w : World) (hw : WorldOK w) (cfg : Config) :
+    SrcC15.create_star w.ext (.dict (embCfg cfg))
+      = lenientV w "star" "star_type" cfg >>= fun o => pure (o, .dict (embCfg (poppedCfg w "star" "star_type" cfg))) := by
+  rw [src_create_star w hw, lenientV, poppedCfg]
+  cases Factory.determineKlass (w.reg.sec "star") w.customs "star" "star_type" cfg with
+  | error e => rfl
+  | ok p => rfl
+
+theorem src_create_optimizer_split (w : World) (hw : WorldOK w) (cfg : Config) :
+    SrcC15.create_optimizer w.ext (.dict (embCfg cfg))
+      = lenientV w "optimizer" "optimizer" cfg >>= fun o =>
+          pure (o, .dict (embCfg (poppedCfg w "optimizer" "optimizer" cfg))) := by
+  rw [src_create_optimizer w hw, lenientV, poppedCfg]
+  cases Factory.determineKlass (w.reg.sec "optimizer") w.customs "optimizer" "optimizer" cfg with
+  | error e => rfl
+  | ok p => rfl
+
+theorem src_create_observation_split (w : World) (hw : WorldOK w) (cfg : Config) :
+    SrcC15.create_observation w.ext (.dict (embCfg cfg))
+      = lenientV w "observation" "observation" cfg >>= fun o =>
+          pure (o, .dict (embCfg (poppedCfg w "observation" "observation" cfg))) := by
+  rw [src_create_observation w hw, lenientV, poppedCfg]
+  cases Factory.determineKlass (w.reg.sec "observation") w.customs "observation" "observation" cfg with
+  | error e => rfl
+  | ok p => rfl
+
+theorem src_create_instrument_split (w : World) (hw : WorldOK w) (cfg : Config) :
+    SrcC15.create_instrument w.ext (.dict (embCfg cfg))
+      = lenientV w "instrument" "instrument" cfg >>= fun o =>
+          pure (o, .dict (embCfg (poppedCfg w "instrument" "instrument" cfg))) := by
+  rw [src_create_instrument w hw, lenientV, poppedCfg]
+  cases Factory.determineKlass (w.reg.sec "instrument") w.customs "instrument" "instrument" cfg with
+  | error e => rfl
+  | ok p => rfl
+
+/-- the section `create_planet` works on: `planet_type` defaults to `simple` (as in `Factory.createPlanet`) -/
+def planetCfg (cfg : Config) : Config :=
+  if Factory.hasKey cfg "planet_type" then cfg else cfg ++ [("planet_type", .scalar (.str "simple"))]
+
+theorem src_create_planet_split (w : World) (hw : WorldOK w) (cfg : Config) (hc : KeysNodup cfg) :
+    SrcC15.create_planet w.ext (.dict (embCfg cfg))
+      = lenientV w "planet" "planet_type" (planetCfg cfg) >>= fun o =>
+          pure (o, .dict (embCfg (poppedCfg w "planet" "planet_type" (planetCfg cfg)))) := by
+  rw [src_create_planet w hw cfg (planetCfg cfg) hc rfl, lenientV, poppedCfg]
+  cases Factory.determineKlass (w.reg.sec "planet") w.customs "planet" "planet_type" (planetCfg cfg) with
+  | error e => rfl
+  | ok p => rfl
+
+/-- what `generate_<x>` returns: `None` for an absent section -/
+def optV : Option (M V) → M V
+  | none => .ok .none
+  | some x => x
+
+/-- `'Name' in config` / `config['Name']` on the file dictionary are the model's `sectionOf` -/
+theorem sectionOf_embFile (f : InputFile) (name : String) :
+    dictHas (embFile f) (.str name) = (Factory.sectionOf f name).isSome ∧
+    dictGet? (embFile f) (.str name) = (Factory.sectionOf f name).map (fun s => .dict (embSec s.scalars s.subs)) := by
+  induction f with
+  | nil => exact ⟨rfl, rfl⟩
+  | cons x t ih =>
+    obtain ⟨n, s⟩ := x
+    simp only [embFile, List.map_cons, dictHas, List.any_cons, dictGet?, beq_str, Factory.sectionOf,
+      List.lookup_cons] at ih ⊢
+    by_cases h : n = name
+    · subst h; simp
+    · have h1 : (n == name) = false := by simp [h]
+      have h2 : (name == n) = false := by simp [Ne.symm h]
+      simp only [h1, h2, Bool.false_or, Bool.false_eq_true, if_false]
+      exact ih
+
+/-- the common frame of every `generate_<x>`: `config = self._raw_config.dict()`, then the section `name` if present -/
+theorem parser_section {β : Type} (w : World) (f : InputFile) (name : String) (K : V → M β) (none_ : M β) :
+    (do
+      let t1 ← Dyn.getAttr w.ext (.obj (.parser f)) "_raw_config"
+      let t2 ← Dyn.callMethod w.ext t1 "dict" [] []
+      let t3 ← Dyn.contains w.ext (.str name) t2
+      if t3 then do
+        let t4 ← Dyn.getItem w.ext t2 (.str name)
+        K t4
+      else none_)
+    = match Factory.sectionOf f name with
+      | none => none_
+      | some s => K (.dict (embSec s.scalars s.subs)) := by
+  obtain ⟨h1, h2⟩ := sectionOf_embFile f name
+  simp only [Dyn.getAttr, ext_getattr_raw_config, bind_ok, Dyn.callMethod, ext_method_dict, Dyn.contains, hashable_str,
+    if_true, pure_ok, h1, Dyn.getItem, h2]
+  cases Factory.sectionOf f name with
+  | none => rfl
+  | some s => rfl
+
+theorem embSec_nil (sc : Config) : embSec sc [] = embCfg sc := by simp [embSec]
+
+/-- no sub-sections, distinct keys: what the harness's generator guarantees for every section but `[Chemistry]` / `[Model]`
+    (a `dict` guarantees the distinct keys) -/
+def FlatSection (f : InputFile) (name : String) : Prop :=
+  ∀ s, Factory.sectionOf f name = some s → s.subs = [] ∧ KeysNodup s.scalars
+
+/-- **`generate_temperature_profile()`**: `None` without a `[Temperature]` section, else `create_temperature_profile` on it
+    (the `temperature` slot of `Factory.expected`) -/
+theorem src_generate_temperature_profile (w : World) (hw : WorldOK w) (f : InputFile) (hf : FlatSection f "Temperature") :
+    SrcC15.generate_temperature_profile w.ext (.obj (.parser f))
+      = optV ((Factory.sectionOf f "Temperature").map (fun s => profileV w "temperature" "profile_type" s.scalars)) := by
+  unfold SrcC15.generate_temperature_profile
+  rw [parser_section w f "Temperature"]
+  cases hs : Factory.sectionOf f "Temperature" with
+  | none => rfl
+  | some s =>
+    obtain ⟨h1, h2⟩ := hf s hs
+    simp only [h1, embSec_nil, src_create_temperature_profile w hw _ h2, Option.map_some, optV]
+    cases profileV w "temperature" "profile_type" s.scalars <;> rfl
+
+/-- **`generate_pressure_profile()`**: the `pressure` slot of `Factory.expected` -/
+theorem src_generate_pressure_profile (w : World) (hw : WorldOK w) (f : InputFile) (hf : FlatSection f "Pressure") :
+    SrcC15.generate_pressure_profile w.ext (.obj (.parser f))
+      = optV ((Factory.sectionOf f "Pressure").map (fun s => profileV w "pressure" "profile_type" s.scalars)) := by
+  unfold SrcC15.generate_pressure_profile
+  rw [parser_section w f "Pressure"]
+  cases hs : Factory.sectionOf f "Pressure" with
+  | none => rfl
+  | some s =>
+    obtain ⟨h1, h2⟩ := hf s hs
+    simp only [h1, embSec_nil, src_create_pressure_profile w hw _ h2, Option.map_some, optV]
+    cases profileV w "pressure" "profile_type" s.scalars <;> rfl
+
+/-- **`generate_star()`**: the `star` slot of `Factory.expected` -/
+theorem src_generate_star (w : World) (hw : WorldOK w) (f : InputFile) (hf : FlatSection f "Star") :
+    SrcC15.generate_star w.ext (.obj (.parser f))
+      = optV ((Factory.sectionOf f "Star").map (fun s => lenientV w "star" "star_type" s.scalars)) := by
+  unfold SrcC15.generate_star
+  rw [parser_section w f "Star"]
+  cases hs : Factory.sectionOf f "Star" with
+  | none => rfl
+  | some s =>
+    obtain ⟨h1, h2⟩ := hf s hs
+    simp only [h1, embSec_nil, src_create_star w hw, Option.map_some, optV, lenientV]
+    cases Factory.determineKlass (w.reg.sec "star") w.customs "star" "star_type" s.scalars with
+    | error e => rfl
+    | ok p =>
+      obtain ⟨cfg1, r⟩ := p
+      simp only [withCfg]
+      cases w.call (robjO r) [] (embKw cfg1) <;> rfl
+
+/-- **`generate_optimizer()`**: the `optimizer` slot of `Factory.expected` -/
+theorem src_generate_optimizer (w : World) (hw : WorldOK w) (f : InputFile) (hf : FlatSection f "Optimizer") :
+    SrcC15.generate_optimizer w.ext (.obj (.parser f))
+      = optV ((Factory.sectionOf f "Optimizer").map (fun s => lenientV w "optimizer" "optimizer" s.scalars)) := by
+  unfold SrcC15.generate_optimizer
+  rw [parser_section w f "Optimizer"]
+  cases hs : Factory.sectionOf f "Optimizer" with
+  | none => rfl
+  | some s =>
+    obtain ⟨h1, h2⟩ := hf s hs
+    simp only [h1, embSec_nil, src_create_optimizer w hw, Option.map_some, optV, lenientV]
+    cases Factory.determineKlass (w.reg.sec "optimizer") w.customs "optimizer" "optimizer" s.scalars with
+    | error e => rfl
+    | ok p =>
+      obtain ⟨cfg1, r⟩ := p
+      simp only [withCfg]
+      cases w.call (robjO r) [] (embKw cfg1) <;> rfl
+
+/-- **`generate_planet()`**: the `planet` slot of `Factory.expected` -/
+theorem src_generate_planet (w : World) (hw : WorldOK w) (f : InputFile) (hf : FlatSection f "Planet") :
+    SrcC15.generate_planet w.ext (.obj (.parser f))
+      = optV ((Factory.sectionOf f "Planet").map (fun s => lenientV w "planet" "planet_type" (planetCfg s.scalars))) := by
+  unfold SrcC15.generate_planet
+  rw [parser_section w f "Planet"]
+  cases hs : Factory.sectionOf f "Planet" with
+  | none => rfl
+  | some s =>
+    obtain ⟨h1, h2⟩ := hf s hs
+    simp only [h1, embSec_nil, src_create_planet w hw s.scalars (planetCfg s.scalars) h2 rfl, Option.map_some, optV,
+      lenientV]
+    cases Factory.determineKlass (w.reg.sec "planet") w.customs "planet" "planet_type" (planetCfg s.scalars) with
+    | error e => rfl
+    | ok p =>
+      obtain ⟨cfg1, r⟩ := p
+      simp only [withCfg]
+      cases w.call (robjO r) [] (embKw cfg1) <;> rfl
+
+/-- a section with sub-sections whose keys are all distinct (a `dict`) -/
+def DictSection (f : InputFile) (name : String) : Prop :=
+  ∀ s, Factory.sectionOf f name = some s →
+    ((s.scalars.map (·.1)) ++ s.subs.map (·.1)).Nodup ∧ ∀ sub ∈ s.subs, KeysNodup sub.2
+
+/-- **`generate_chemistry_profile()`**: `None` without a `[Chemistry]` section, else `create_chemistry` on it -/
+theorem src_generate_chemistry_profile (w : World) (hw : WorldOK w) (f : InputFile) (hf : DictSection f "Chemistry") :
+    SrcC15.generate_chemistry_profile w.ext (.obj (.parser f))
+      = optV ((Factory.sectionOf f "Chemistry").map (fun s =>
+          gasesV w s.subs >>= fun gs =>
+          profileV w "chemistry" "chemistry_type" s.scalars >>= fun obj =>
+          (if w.hasattr obj "addGas" then addGases w obj gs else pure ()) >>= fun _ => pure obj)) := by
+  unfold SrcC15.generate_chemistry_profile
+  rw [parser_section w f "Chemistry"]
+  cases hs : Factory.sectionOf f "Chemistry" with
+  | none => rfl
+  | some s =>
+    obtain ⟨h1, h2⟩ := hf s hs
+    simp only [src_create_chemistry w hw _ _ h1 h2, Option.map_some, optV]
+    cases gasesV w s.subs with
+    | error e => rfl
+    | ok gs =>
+      simp only [bind_ok]
+      cases profileV w "chemistry" "chemistry_type" s.scalars with
+      | error e => rfl
+      | ok obj =>
+        simp only [bind_ok]
+        generalize (if w.hasattr obj "addGas" = true then addGases w obj gs else pure ()) = x
+        cases x <;> rfl
+
+/-- `lenientV` is the model's `createLenient` once the constructor calls are the model's `instantiate` -/
+theorem lenientV_eq_createLenient (w : World) (comp : Component → V)
+    (hinst : ∀ r kw, w.call (robjO r) [] (embKw kw) = embE comp (Factory.instantiate r kw))
+    (sec field : String) (cfg : Config) :
+    lenientV w sec field cfg = embE comp (Factory.createLenient (w.reg.sec sec) w.customs sec field cfg) := by
+  unfold lenientV Factory.createLenient
+  cases Factory.determineKlass (w.reg.sec sec) w.customs sec field cfg with
+  | error e => rfl
+  | ok p =>
+    obtain ⟨cfg1, r⟩ := p
+    simp only [hinst, bind, Except.bind]
+
+/-! ## `generate_observation` -/
+
+/-- a value of an input file (after `transform`): a scalar or a flat list -/
+def IsData : Value → Prop
+  | .scalar _ => True
+  | .list _ => True
+  | _ => False
+
+/-- the names `generate_observation` imports for the four file keys, in their order of precedence -/
+def obsGlobals : List (String × String) :=
+  [("lightcurve", "ObservedLightCurve"), ("observed_spectrum", "ObservedSpectrum"),
+   ("taurex_spectrum", "TaurexSpectrum"), ("iraclis_spectrum", "IraclisSpectrum")]
+
+/-- `Factory.generateObservation` with the constructor calls left to the world -/
+def observationV (w : World) (cfg : Config) : M V :=
+  match obsGlobals.find? (fun p => Factory.hasKey cfg p.1) with
+  | some (key, cls) =>
+    if cfg.length > 1 then .error .KeyError
+    else
+      let v := (cfg.lookup key).getD (.scalar .none)
+      if key = "taurex_spectrum" && v = .scalar (.str "self") then .ok (.str "self")
+      else w.call (.fn cls) [emb v] []
+  | none => lenientV w "observation" "observation" cfg
+
+theorem lookup_some_of_hasKey (cfg : Config) (key : String) (h : Factory.hasKey cfg key = true) :
+    ∃ v, cfg.lookup key = some v := by
+  induction cfg with
+  | nil => simp [Factory.hasKey] at h
+  | cons kv t ih =>
+    obtain ⟨k', v'⟩ := kv
+    simp only [Factory.hasKey, List.any_cons, Bool.or_eq_true] at h
+    by_cases hk : k' = key
+    · exact ⟨v', by simp [List.lookup_cons, hk]⟩
+    · have hb : (key == k') = false := by simp [Ne.symm hk]
+      simp only [List.lookup_cons, hb]
+      apply ih
+      rcases h with h | h
+      · simp [hk] at h
+      · exact h
+
+/-- `config[key]` for a key that is present (whatever default the model's `getD` names) -/
+theorem getItem_of_hasKey_default (w : World) (cfg : Config) (key : String) (d : Value) (h : Factory.hasKey cfg key = true) :
+    Dyn.getItem w.ext (.dict (embCfg cfg)) (.str key) = .ok (emb ((cfg.lookup key).getD d)) := by
+  obtain ⟨v, hv⟩ := lookup_some_of_hasKey cfg key h
+  simp only [Dyn.getItem, hashable_str, if_true, dictGet_emb, hv, Option.map_some, pure_ok, Option.getD_some]
+
+theorem getItem_of_hasKey (w : World) (cfg : Config) (key : String) (h : Factory.hasKey cfg key = true) :
+    Dyn.getItem w.ext (.dict (embCfg cfg)) (.str key) = .ok (emb ((cfg.lookup key).getD (.scalar .none))) :=
+  getItem_of_hasKey_default w cfg key _ h
+
+theorem lookup_none_of_hasKey (cfg : Config) (key : String) (h : Factory.hasKey cfg key = false) :
+    cfg.lookup key = none := by
+  induction cfg with
+  | nil => rfl
+  | cons kv t ih =>
+    obtain ⟨k', v'⟩ := kv
+    simp only [Factory.hasKey, List.any_cons, Bool.or_eq_false_iff] at h
+    have hb : (key == k') = false := by
+      have : k' ≠ key := by simpa using h.1
+      simp [Ne.symm this]
+    simp only [List.lookup_cons, hb]
+    exact ih h.2
+
+theorem mem_of_lookup (c : Config) (k : String) (v : Value) (h : c.lookup k = some v) : (k, v) ∈ c := by
+  induction c with
+  | nil => cases h
+  | cons kv t ih =>
+    obtain ⟨k', v'⟩ := kv
+    simp only [List.lookup_cons] at h
+    by_cases hk : k = k'
+    · subst hk
+      simp only [beq_self_eq_true] at h
+      cases h
+      exact List.mem_cons_self
+    · have hb : (k == k') = false := by simp [hk]
+      simp only [hb] at h
+      exact List.mem_cons_of_mem _ (ih h)
+
+theorem eqB_emb_str (w : World) (v : Value) (hv : IsData v) (s : String) :
+    Dyn.eqB w.ext (emb v) (.str s) = .ok (decide (v = .scalar (.str s))) := by
+  cases v with
+  | scalar x =>
+    cases x with
+    | str a =>
+      simp only [emb, embS, Dyn.eqB, pure_ok, beq_str]
+      congr 1
+      by_cases h : a = s <;> simp [h]
+    | _ => simp only [emb, embS, Dyn.eqB, Dyn.Val.beq, pure_ok] <;> simp
+  | list l => simp only [emb, Dyn.eqB, Dyn.Val.beq, pure_ok]; simp
+  | other r => exact absurd hv (by simp [IsData])
+  | ref r => exact absurd hv (by simp [IsData])
+
+theorem length_embCfg (c : Config) : (embCfg c).length = c.length := by simp [embCfg]
+
+/-- the list comprehension in the error message never raises -/
+theorem keys_comp_ok (cfg : Config) (body : List V → V → M (List V))
+    (hb : ∀ acc k, ∃ acc', body acc (.str k) = .ok acc') :
+    ∀ acc, ∃ r, Dyn.forM ((embCfg cfg).map (·.1)) acc body = .ok r := by
+  induction cfg with
+  | nil => intro acc; exact ⟨acc, rfl⟩
+  | cons kv t ih =>
+    intro acc
+    obtain ⟨acc', h⟩ := hb acc kv.1
+    obtain ⟨r, hr⟩ := ih acc'
+    exact ⟨r, by simp only [embCfg, List.map_cons, Dyn.forM, h, bind_ok] at hr ⊢; exact hr⟩
+
+theorem ext_call_fn (w : World) (name : String) (a : List V) (kw : List (String × V))
+    (h1 : name ≠ "build_new_mixed_class") (h2 : name ≠ "detect_and_return_klass") :
+    w.ext.call (.fn name) a kw = w.call (.fn name) a kw := by
+  simp only [World.ext, h1, h2, if_false]
+
+/-- the loop over the four file keys: a file key next to any other key is a `KeyError` -/
+theorem obs_loop (cfg : Config) (body : Unit → V → M Unit)
+    (hb : ∀ key, body () (.str key)
+      = if Factory.hasKey cfg key && decide (1 < cfg.length) then .error .KeyError else .ok ()) :
+    Dyn.forM [(Dyn.Val.str "lightcurve" : V), .str "observed_spectrum", .str "taurex_spectrum", .str "iraclis_spectrum"] ()
+        body
+      = if obsGlobals.any (fun p => Factory.hasKey cfg p.1) && decide (1 < cfg.length) then .error .KeyError
+        else .ok () := by
+  simp only [Dyn.forM, hb, obsGlobals, List.any_cons, List.any_nil, Bool.or_false]
+  by_cases hl : 1 < cfg.length
+  · cases Factory.hasKey cfg "lightcurve" <;> cases Factory.hasKey cfg "observed_spectrum" <;>
+      cases Factory.hasKey cfg "taurex_spectrum" <;> cases Factory.hasKey cfg "iraclis_spectrum" <;> simp [hl]
+  · simp [hl]
+
+/-- **`generate_observation()`** is `Factory.generateObservation` (constructor calls left to the world): `None` without an
+    `[Observation]` section; a file key (`lightcurve`, `observed_spectrum`, `taurex_spectrum`, `iraclis_spectrum`, in this
+    order of precedence) next to any other key is a `KeyError`; alone it builds the class of that key from the file name
+    (`taurex_spectrum = self` gives the string `'self'`); without a file key `create_observation` -/
+theorem src_generate_observation (w : World) (hw : WorldOK w) (f : InputFile) (hf : FlatSection f "Observation")
+    (hdata : ∀ s, Factory.sectionOf f "Observation" = some s → ∀ kv ∈ s.scalars, IsData kv.2) :
+    SrcC15.generate_observation w.ext (.obj (.parser f))
+      = optV ((Factory.sectionOf f "Observation").map (fun s => observationV w s.scalars)) := by
+  unfold SrcC15.generate_observation
+  rw [parser_section w f "Observation"]
+  cases hs : Factory.sectionOf f "Observation" with
+  | none => rfl
+  | some s =>
+    obtain ⟨h1, h2⟩ := hf s hs
+    have hd := hdata s hs
+    simp only [h1, embSec_nil, Option.map_some, optV, Dyn.iter, pure_ok, bind_ok]
+    generalize s.scalars = cfg at h2 hd ⊢
+    rw [obs_loop cfg _ ?hb]
+    case hb =>
+      intro key
+      simp only [Dyn.contains, hashable_str, if_true, dictHas_emb, pure_ok, bind_ok, Dyn.len, length_embCfg,
+        Dyn.compare, indexOf, Dyn.truthy, Dyn.iter]
+      have h1 : (">" == "<") = false := by decide
+      have h2 : (">" == "<=") = false := by decide
+      have h3 : (">" == ">") = true := by decide
+      simp only [h1, h2, h3, Bool.false_eq_true, if_false, if_true, gt_iff_lt]
+      cases Factory.hasKey cfg key with
+      | false => simp
+      | true =>
+        by_cases hl : 1 < cfg.length
+        · have hl' : ((1 : Int) < (cfg.length : Int)) := by omega
+          obtain ⟨r, hr⟩ := keys_comp_ok cfg (fun acc__ k => do
+              let t__12 ← Dyn.eqB w.ext k (Dyn.Val.str key)
+              if (!t__12) then (pure (acc__ ++ [k])) else pure acc__) (by
+            intro acc k
+            simp only [Dyn.eqB, beq_str, pure_ok, bind_ok]
+            split <;> exact ⟨_, rfl⟩) []
+          simp only [pure_ok] at hr
+          simp only [hl, hl', decide_true, if_true, hr, bind_ok, Bool.and_self, throw_err]
+        · have hl' : ¬ ((1 : Int) < (cfg.length : Int)) := by omega
+          simp [hl, hl']
+    have hg1 := ext_global_fn w "ObservedLightCurve" (by decide) (by decide) (by decide)
+    have hg2 := ext_global_fn w "ObservedSpectrum" (by decide) (by decide) (by decide)
+    have hg3 := ext_global_fn w "TaurexSpectrum" (by decide) (by decide) (by decide)
+    have hg4 := ext_global_fn w "IraclisSpectrum" (by decide) (by decide) (by decide)
+    have hc1 := fun a kw => ext_call_fn w "ObservedLightCurve" a kw (by decide) (by decide)
+    have hc2 := fun a kw => ext_call_fn w "ObservedSpectrum" a kw (by decide) (by decide)
+    have hc3 := fun a kw => ext_call_fn w "TaurexSpectrum" a kw (by decide) (by decide)
+    have hc4 := fun a kw => ext_call_fn w "IraclisSpectrum" a kw (by decide) (by decide)
+    simp only [Dyn.contains, hashable_str, if_true, dictHas_emb, pure_ok, bind_ok, observationV, obsGlobals,
+      List.find?_cons, List.find?_nil, List.any_cons, List.any_nil, Bool.or_false, hg1, hg2, hg3, hg4, Dyn.call,
+      hc1, hc2, hc3, hc4]
+    have hlen : (cfg.length > 1) = (1 < cfg.length) := rfl
+    have hfin : (do
+          let t__32 ← Dyn.getAttr w.ext (Dyn.Val.obj (Obj.parser f)) "_raw_config"
+          let _ ← Dyn.callMethod w.ext t__32 "dict" [] []
+          let __x ← SrcC15.create_observation w.ext (Dyn.Val.dict (embCfg cfg))
+          (Except.ok __x.fst : M V)) = lenientV w "observation" "observation" cfg := by
+      simp only [Dyn.getAttr, ext_getattr_raw_config, bind_ok, Dyn.callMethod, ext_method_dict,
+        src_create_observation w hw, lenientV]
+      cases Factory.determineKlass (w.reg.sec "observation") w.customs "observation" "observation" cfg with
+      | error e => rfl
+      | ok p =>
+        obtain ⟨cfg1, r⟩ := p
+        simp only [withCfg]
+        cases w.call (robjO r) [] (embKw cfg1) <;> rfl
+    by_cases hl : 1 < cfg.length
+    · simp only [hl, decide_true, Bool.and_true, hlen, if_true]
+      cases hk1 : Factory.hasKey cfg "lightcurve" <;> cases hk2 : Factory.hasKey cfg "observed_spectrum" <;>
+        cases hk3 : Factory.hasKey cfg "taurex_spectrum" <;> cases hk4 : Factory.hasKey cfg "iraclis_spectrum" <;>
+        simp only [Bool.or_true, Bool.true_or, Bool.or_false, Bool.or_self, if_true, bind_err, Bool.false_eq_true,
+          if_false, bind_ok, hfin]
+    · simp only [hl, decide_false, Bool.and_false, Bool.false_eq_true, if_false, bind_ok, hlen]
+      cases hk1 : Factory.hasKey cfg "lightcurve" with
+      | true =>
+        simp only [if_true, getItem_of_hasKey w cfg _ hk1, bind_ok, String.reduceEq, decide_false, Bool.false_and,
+          Bool.false_eq_true, if_false]
+      | false =>
+        simp only [Bool.false_eq_true, if_false]
+        cases hk2 : Factory.hasKey cfg "observed_spectrum" with
+        | true =>
+          simp only [if_true, getItem_of_hasKey w cfg _ hk2, bind_ok, String.reduceEq, decide_false, Bool.false_and,
+            Bool.false_eq_true, if_false]
+        | false =>
+          simp only [Bool.false_eq_true, if_false]
+          cases hk3 : Factory.hasKey cfg "taurex_spectrum" with
+          | true =>
+            have hv : IsData ((cfg.lookup "taurex_spectrum").getD (.scalar .none)) := by
+              cases hlk : cfg.lookup "taurex_spectrum" with
+              | none => trivial
+              | some v =>
+                exact hd _ (mem_of_lookup cfg _ _ hlk)
+            simp only [if_true, getItem_of_hasKey w cfg _ hk3, bind_ok, eqB_emb_str w _ hv, decide_true, Bool.true_and]
+          | false =>
+            simp only [Bool.false_eq_true, if_false]
+            cases hk4 : Factory.hasKey cfg "iraclis_spectrum" with
+            | true =>
+              simp only [if_true, getItem_of_hasKey w cfg _ hk4, bind_ok, String.reduceEq, decide_false, Bool.false_and,
+                Bool.false_eq_true, if_false]
+            | false =>
+              simp only [Bool.false_eq_true, if_false, hfin]
+/-- how the result of `generate_observation` is seen as a value -/
+def obsOut (comp : Component → V) : Factory.ObsGraph → V
+  | .self => .str "self"
+  | .comp c => comp c
+
+/-- `observationV` is the model's `generateObservation` once the constructor calls are the model's: the class imported for a
+    file key, called with the file name, is the component `obsKeyClasses` names for that key -/
+theorem observationV_eq_generateObservation (w : World) (comp : Component → V)
+    (hinst : ∀ r kw, w.call (robjO r) [] (embKw kw) = embE comp (Factory.instantiate r kw))
+    (hfile : ∀ p ∈ obsGlobals.zip Factory.obsKeyClasses, ∀ v, w.call (.fn p.1.2) [emb v] []
+      = .ok (comp { cls := p.2.2, kwargs := [("filename", v)], mixins := [] }))
+    (cfg : Config) :
+    observationV w cfg = embE (obsOut comp) (Factory.generateObservation w.reg w.customs cfg) := by
+  have hf1 := hfile (("lightcurve", "ObservedLightCurve"), ("lightcurve", "taurex.data.spectrum.lightcurve.ObservedLightCurve"))
+    (by decide)
+  have hf2 := hfile (("observed_spectrum", "ObservedSpectrum"), ("observed_spectrum", "taurex.data.spectrum.observed.ObservedSpectrum"))
+    (by decide)
+  have hf3 := hfile (("taurex_spectrum", "TaurexSpectrum"), ("taurex_spectrum", "taurex.data.spectrum.taurex.TaurexSpectrum"))
+    (by decide)
+  have hf4 := hfile (("iraclis_spectrum", "IraclisSpectrum"), ("iraclis_spectrum", "taurex.data.spectrum.iraclis.IraclisSpectrum"))
+    (by decide)
+  simp only at hf1 hf2 hf3 hf4
+  unfold observationV Factory.generateObservation
+  simp only [obsGlobals, Factory.obsKeyClasses, List.find?_cons, List.find?_nil]
+  by_cases hl : cfg.length > 1
+  · cases Factory.hasKey cfg "lightcurve" <;> cases Factory.hasKey cfg "observed_spectrum" <;>
+      cases Factory.hasKey cfg "taurex_spectrum" <;> cases Factory.hasKey cfg "iraclis_spectrum" <;>
+      first
+      | (simp only [hl, if_true]; rfl)
+      | (simp only [lenientV_eq_createLenient w comp hinst]
+         cases Factory.createLenient (w.reg.sec "observation") w.customs "observation" "observation" cfg <;> rfl)
+  · cases Factory.hasKey cfg "lightcurve" with
+    | true => simp [hl, hf1, embE, obsOut]
+    | false =>
+      cases Factory.hasKey cfg "observed_spectrum" with
+      | true => simp [hl, hf2, embE, obsOut]
+      | false =>
+        cases Factory.hasKey cfg "taurex_spectrum" with
+        | true =>
+          simp only [hl, if_false, decide_true, Bool.true_and, hf3]
+          by_cases hv : (List.lookup "taurex_spectrum" cfg).getD (Value.scalar Scalar.none) = Value.scalar (Scalar.str "self")
+          · simp [hv, embE, obsOut]
+          · simp [hv, embE, obsOut]
+        | false =>
+          cases Factory.hasKey cfg "iraclis_spectrum" with
+          | true => simp [hl, hf4, embE, obsOut]
+          | false =>
+            simp only [lenientV_eq_createLenient w comp hinst]
+            cases Factory.createLenient (w.reg.sec "observation") w.customs "observation" "observation" cfg <;> rfl
+
+/-! ## `create_snr`, `generate_instrument` -/
+
+/-- the key check of `create_snr`: the first key other than `instrument` / `SNR` is a `KeyError` -/
+theorem snr_loop (cfg : Config) (body : Unit → V → M Unit)
+    (hb : ∀ k, body () (.str k) = if (k != "instrument" && k != "SNR") then .error .KeyError else .ok ()) :
+    Dyn.forM ((embCfg cfg).map (·.1)) () body
+      = match cfg.find? (fun kv => kv.1 != "instrument" && kv.1 != "SNR") with
+        | some _ => .error .KeyError
+        | none => .ok () := by
+  induction cfg with
+  | nil => rfl
+  | cons kv t ih =>
+    simp only [embCfg, List.map_cons, Dyn.forM, hb, List.find?_cons] at ih ⊢
+    cases hk : (kv.1 != "instrument" && kv.1 != "SNR") with
+    | true => rfl
+    | false => simp only [Bool.false_eq_true, if_false, bind_ok]; exact ih
+
+/-- **`ParameterParser.create_snr(binner, config)`**: a key other than `instrument` / `SNR` is a `KeyError`; otherwise
+    `SNRInstrument(SNR=config.get('SNR', 10), binner=binner)` -/
+theorem src_create_snr (w : World) (binner : V) (hb : Dyn.Val.isNone binner = false) (cfg : Config) :
+    SrcC15.create_snr w.ext binner (.dict (embCfg cfg))
+      = match cfg.find? (fun kv => kv.1 != "instrument" && kv.1 != "SNR") with
+        | some _ => .error .KeyError
+        | none => w.call (.fn "SNRInstrument") []
+            [("SNR", emb ((cfg.lookup "SNR").getD (.scalar (.int 10)))), ("binner", binner)] := by
+  unfold SrcC15.create_snr
+  have hg := ext_global_fn w "SNRInstrument" (by decide) (by decide) (by decide)
+  have hc := fun a kw => ext_call_fn w "SNRInstrument" a kw (by decide) (by decide)
+  simp only [hb, Bool.false_eq_true, if_false, Dyn.iter, pure_ok, bind_ok]
+  rw [snr_loop cfg _ ?hbody]
+  case hbody =>
+    intro k
+    simp only [Dyn.contains, List.any_cons, List.any_nil, beq_str, Bool.or_false, pure_ok, bind_ok]
+    have e1 : ("instrument" == k) = (k == "instrument") := BEq.comm
+    have e2 : ("SNR" == k) = (k == "SNR") := BEq.comm
+    rw [e1, e2]
+    by_cases h1 : k = "instrument" <;> by_cases h2 : k = "SNR" <;> simp [bne, h1, h2]
+  cases cfg.find? (fun kv => kv.1 != "instrument" && kv.1 != "SNR") with
+  | some kv => rfl
+  | none =>
+    simp only [bind_ok, Dyn.contains, hashable_str, if_true, dictHas_emb, pure_ok, hg, Dyn.call, hc]
+    cases hk : Factory.hasKey cfg "SNR" with
+    | true => simp only [if_true, getItem_of_hasKey_default w cfg _ (.scalar (.int 10)) hk, bind_ok]
+    | false =>
+      simp only [Bool.false_eq_true, if_false, bind_ok, lookup_none_of_hasKey cfg _ hk, Option.getD_none]
+      rfl
+
+@[simp] theorem ext_truthy (w : World) (o : Obj) : w.ext.truthy o = .ok true := rfl
+
+/-- `Factory.generateInstrument` with the constructor calls left to the world -/
+def instrumentV (w : World) (cfg : Config) : M V :=
+  let p : Value × Config := match Factory.popKey cfg "num_observations" with
+    | some (v, c) => (v, c)
+    | none => (.scalar (.int 1), cfg)
+  match p.2.lookup "instrument" with
+  | some (.scalar (.str sel)) =>
+    if Factory.lower sel = "snr" || Factory.lower sel = "signalnoise" then
+      match p.2.find? (fun kv => kv.1 != "instrument" && kv.1 != "SNR") with
+      | some _ => .error .KeyError
+      | none => w.call (.fn "SNRInstrument") []
+          [("SNR", emb ((p.2.lookup "SNR").getD (.scalar (.int 10)))), ("binner", emb (.ref "binner"))] >>= fun i =>
+            .ok (.tuple [i, emb p.1])
+    else lenientV w "instrument" "instrument" p.2 >>= fun i => .ok (.tuple [i, emb p.1])
+  | some _ => .error .AttributeError
+  | none => lenientV w "instrument" "instrument" p.2 >>= fun i => .ok (.tuple [i, emb p.1])
+
+theorem src_create_instrument_fst (w : World) (hw : WorldOK w) (cfg : Config) :
+    (SrcC15.create_instrument w.ext (.dict (embCfg cfg)) >>= fun p => pure p.1)
+      = lenientV w "instrument" "instrument" cfg := by
+  rw [src_create_instrument w hw, lenientV]
+  cases Factory.determineKlass (w.reg.sec "instrument") w.customs "instrument" "instrument" cfg with
+  | error e => rfl
+  | ok p =>
+    obtain ⟨cfg1, r⟩ := p
+    simp only [withCfg]
+    cases w.call (robjO r) [] (embKw cfg1) <;> rfl
+
+theorem instr_tail (w : World) (hw : WorldOK w) (c : Config) (n : V) :
+    (do
+      let x ← SrcC15.create_instrument w.ext (.dict (embCfg c))
+      (pure (Dyn.Val.tuple [x.1, n]) : M V))
+    = lenientV w "instrument" "instrument" c >>= fun i => .ok (.tuple [i, n]) := by
+  rw [← src_create_instrument_fst w hw]
+  cases SrcC15.create_instrument w.ext (.dict (embCfg c)) <;> rfl
+
+/-- `generate_instrument` once `num_observations` has been popped -/
+theorem instrument_core (w : World) (hw : WorldOK w) (cfg1 : Config) (nobs : V) (k : Flow Unit V → M V)
+    (hk1 : ∀ v, k (.ret v) = .ok v)
+    (hk2 : k (.next ()) = (do
+      let x ← SrcC15.create_instrument w.ext (.dict (embCfg cfg1))
+      pure (Dyn.Val.tuple [x.1, nobs]))) :
+    (do
+      let t6 ← Dyn.contains w.ext (Dyn.Val.str "instrument") (.dict (embCfg cfg1))
+      let t14 ← (if t6 = true then do
+          let t8 ← Dyn.truthy w.ext (emb (Value.ref "binner"))
+          let t9 ← (if t8 = true then pure (emb (Value.ref "binner")) else w.ext.global "NativeBinner" : M V)
+          let t10 ← Dyn.getItem w.ext (.dict (embCfg cfg1)) (Dyn.Val.str "instrument")
+          let t11 ← Dyn.m_lower w.ext t10
+          let t12 ← Dyn.contains w.ext t11 (Dyn.Val.tuple [Dyn.Val.str "snr", Dyn.Val.str "signalnoise"])
+          if t12 = true then do
+            let t13 ← SrcC15.create_snr w.ext t9 (.dict (embCfg cfg1))
+            pure (Flow.ret (Dyn.Val.tuple [t13, nobs]))
+          else pure (Flow.next ())
+        else pure (Flow.next ()) : M (Flow Unit V))
+      k t14)
+    = match cfg1.lookup "instrument" with
+      | some (.scalar (.str sel)) =>
+        if Factory.lower sel = "snr" || Factory.lower sel = "signalnoise" then
+          match cfg1.find? (fun kv => kv.1 != "instrument" && kv.1 != "SNR") with
+          | some _ => .error .KeyError
+          | none => w.call (.fn "SNRInstrument") []
+              [("SNR", emb ((cfg1.lookup "SNR").getD (.scalar (.int 10)))), ("binner", emb (.ref "binner"))] >>= fun i =>
+                .ok (.tuple [i, nobs])
+        else lenientV w "instrument" "instrument" cfg1 >>= fun i => .ok (.tuple [i, nobs])
+      | some _ => .error .AttributeError
+      | none => lenientV w "instrument" "instrument" cfg1 >>= fun i => .ok (.tuple [i, nobs]) := by
+  simp only [Dyn.contains, hashable_str, if_true, dictHas_emb, pure_ok, bind_ok]
+  cases hk : Factory.hasKey cfg1 "instrument" with
+  | false =>
+    simp only [Bool.false_eq_true, if_false, bind_ok, lookup_none_of_hasKey cfg1 _ hk, hk2]
+    exact instr_tail w hw cfg1 nobs
+  | true =>
+    obtain ⟨v, hv⟩ := lookup_some_of_hasKey cfg1 _ hk
+    have hget := getItem_of_hasKey w cfg1 _ hk
+    simp only [hv, Option.getD_some] at hget
+    have hbin : Dyn.truthy w.ext (emb (Value.ref "binner")) = .ok true := rfl
+    simp only [if_true, hbin, bind_ok, pure_ok, hget, m_lower_emb, hv]
+    cases v with
+    | scalar x =>
+      cases x with
+      | str sel =>
+        simp only [bind_ok, Dyn.contains, pure_ok, List.any_cons, List.any_nil, beq_str, Bool.or_false]
+        have e1 : ("snr" == Factory.lower sel) = decide (Factory.lower sel = "snr") := by
+          rw [BEq.comm]; rfl
+        have e2 : ("signalnoise" == Factory.lower sel) = decide (Factory.lower sel = "signalnoise") := by
+          rw [BEq.comm]; rfl
+        rw [e1, e2]
+        cases hsn : (decide (Factory.lower sel = "snr") || decide (Factory.lower sel = "signalnoise")) with
+        | true =>
+          simp only [if_true, src_create_snr w (emb (Value.ref "binner")) rfl cfg1]
+          cases cfg1.find? (fun kv => kv.1 != "instrument" && kv.1 != "SNR") with
+          | some kv => rfl
+          | none =>
+            simp only []
+            cases w.call (.fn "SNRInstrument") []
+              [("SNR", emb ((cfg1.lookup "SNR").getD (.scalar (.int 10)))), ("binner", emb (.ref "binner"))] with
+            | error e => rfl
+            | ok i => simp only [bind_ok, hk1]
+        | false =>
+          simp only [Bool.false_eq_true, if_false, bind_ok, hk2]
+          exact instr_tail w hw cfg1 nobs
+      | _ => rfl
+    | _ => rfl
+
+/-- **`generate_instrument(binner)`** is `Factory.generateInstrument` (constructor calls left to the world): `None`
+    without an `[Instrument]` section; `num_observations` is popped (default 1); the selectors `snr` / `signalnoise` (any
+    letter case) go to `create_snr` with the given binner, everything else to `create_instrument`; the result is the pair
+    `(instrument, num_observations)` -/
+theorem src_generate_instrument (w : World) (hw : WorldOK w) (f : InputFile) (hf : FlatSection f "Instrument") :
+    SrcC15.generate_instrument w.ext (.obj (.parser f)) (emb (.ref "binner"))
+      = optV ((Factory.sectionOf f "Instrument").map (fun s => instrumentV w s.scalars)) := by
+  unfold SrcC15.generate_instrument
+  rw [parser_section w f "Instrument"]
+  cases hs : Factory.sectionOf f "Instrument" with
+  | none => rfl
+  | some s =>
+    obtain ⟨h1, h2⟩ := hf s hs
+    simp only [h1, embSec_nil, Option.map_some, optV]
+    generalize s.scalars = cfg at h2 ⊢
+    unfold instrumentV
+    simp only [m_pop_emb]
+    cases hp : Factory.popKey cfg "num_observations" with
+    | none =>
+      have hi : Exc.isaAny Exc.KeyError [Exc.KeyError] = true := by decide
+      simp only [throw_err, bind_err, try_err, hi, if_true, pure_ok, bind_ok]
+      exact instrument_core w hw cfg (emb (.scalar (.int 1))) _ (fun v => rfl) rfl
+    | some p =>
+      obtain ⟨nobs, cfg1⟩ := p
+      simp only [bind_ok, pure_ok, try_ok]
+      exact instrument_core w hw cfg1 (emb nobs) _ (fun v => rfl) rfl
+
+/-- how the result of `generate_instrument` is seen as a value: the pair `(instrument, num_observations)` -/
+def instOut (comp : Component → V) (g : Factory.InstrumentGraph) : V := .tuple [comp g.instrument, emb g.numObs]
+
+/-- `instrumentV` is the model's `generateInstrument` once the constructor calls are the model's -/
+theorem instrumentV_eq_generateInstrument (w : World) (comp : Component → V)
+    (hinst : ∀ r kw, w.call (robjO r) [] (embKw kw) = embE comp (Factory.instantiate r kw))
+    (hsnr : ∀ v, w.call (.fn "SNRInstrument") [] [("SNR", emb v), ("binner", emb (.ref "binner"))]
+      = .ok (comp { cls := "taurex.instruments.snr.SNRInstrument", kwargs := [("SNR", v), ("binner", .ref "binner")],
+                    mixins := [] }))
+    (cfg : Config) :
+    instrumentV w cfg = embE (instOut comp) (Factory.generateInstrument w.reg w.customs cfg) := by
+  unfold instrumentV Factory.generateInstrument
+  have hlen : ∀ (c : Config) (n : Value),
+      (lenientV w "instrument" "instrument" c >>= fun i => (Except.ok (Dyn.Val.tuple [i, emb n]) : M V))
+        = embE (instOut comp) ((Factory.createLenient (w.reg.sec "instrument") w.customs "instrument" "instrument" c).map
+            (fun c => { instrument := c, numObs := n })) := by
+    intro c n
+    rw [lenientV_eq_createLenient w comp hinst]
+    cases Factory.createLenient (w.reg.sec "instrument") w.customs "instrument" "instrument" c <;> rfl
+  have core : ∀ (p : Value × Config),
+      (match p.2.lookup "instrument" with
+        | some (.scalar (.str sel)) =>
+          if Factory.lower sel = "snr" || Factory.lower sel = "signalnoise" then
+            match p.2.find? (fun kv => kv.1 != "instrument" && kv.1 != "SNR") with
+            | some _ => .error .KeyError
+            | none => w.call (.fn "SNRInstrument") []
+                [("SNR", emb ((p.2.lookup "SNR").getD (.scalar (.int 10)))), ("binner", emb (.ref "binner"))] >>= fun i =>
+                  .ok (.tuple [i, emb p.1])
+          else lenientV w "instrument" "instrument" p.2 >>= fun i => .ok (.tuple [i, emb p.1])
+        | some _ => .error .AttributeError
+        | none => lenientV w "instrument" "instrument" p.2 >>= fun i => (Except.ok (.tuple [i, emb p.1]) : M V))
+      = embE (instOut comp) (match p.2.lookup "instrument" with
+        | some (.scalar (.str sel)) =>
+          if Factory.lower sel = "snr" || Factory.lower sel = "signalnoise" then
+            match p.2.find? (fun kv => kv.1 != "instrument" && kv.1 != "SNR") with
+            | some kv => .error (.keyError kv.1)
+            | none =>
+            .ok { instrument := { cls := "taurex.instruments.snr.SNRInstrument",
+                                  kwargs := [("SNR", (p.2.lookup "SNR").getD (.scalar (.int 10))), ("binner", .ref "binner")],
+                                  mixins := [] },
+                  numObs := p.1 }
+          else (Factory.createLenient (w.reg.sec "instrument") w.customs "instrument" "instrument" p.2).map
+            (fun c => { instrument := c, numObs := p.1 })
+        | some _ => .error (.attrError "instrument")
+        | none => (Factory.createLenient (w.reg.sec "instrument") w.customs "instrument" "instrument" p.2).map
+            (fun c => { instrument := c, numObs := p.1 })) := by
+    intro p
+    obtain ⟨n, c⟩ := p
+    simp only []
+    cases c.lookup "instrument" with
+    | none => exact hlen c n
+    | some v =>
+      cases v with
+      | scalar x =>
+        cases x with
+        | str sel =>
+          simp only []
+          split
+          · cases c.find? (fun kv => kv.1 != "instrument" && kv.1 != "SNR") with
+            | some kv => rfl
+            | none => simp only [hsnr, bind_ok]; rfl
+          · exact hlen c n
+        | _ => rfl
+      | _ => rfl
+  cases Factory.popKey cfg "num_observations" with
+  | none => exact core (.scalar (.int 1), cfg)
+  | some q => obtain ⟨v, c⟩ := q; exact core (v, c)
+
+/-! ## `generate_model` -/
+
+/-- **`generate_model()`** (no component given): `None` without a `[Model]` section; otherwise the chemistry, the pressure
+    profile, the temperature profile, the planet and the star are generated — in this order, each by its own
+    `generate_<x>` — and `create_model` is called on the section with (chemistry, temperature, pressure, planet, star) and
+    the given observation -/
+theorem src_generate_model (w : World) (f : InputFile) (obs : V) :
+    SrcC15.generate_model w.ext (.obj (.parser f)) .none .none .none .none .none obs
+      = optV ((Factory.sectionOf f "Model").map (fun s => do
+          let chem ← SrcC15.generate_chemistry_profile w.ext (.obj (.parser f))
+          let pres ← SrcC15.generate_pressure_profile w.ext (.obj (.parser f))
+          let temp ← SrcC15.generate_temperature_profile w.ext (.obj (.parser f))
+          let planet ← SrcC15.generate_planet w.ext (.obj (.parser f))
+          let star ← SrcC15.generate_star w.ext (.obj (.parser f))
+          let p ← SrcC15.create_model w.ext (.dict (embSec s.scalars s.subs)) chem temp pres planet star obs
+          pure p.1)) := by
+  unfold SrcC15.generate_model
+  obtain ⟨h1, h2⟩ := sectionOf_embFile f "Model"
+  simp only [Dyn.getAttr, ext_getattr_raw_config, bind_ok, Dyn.callMethod, ext_method_dict, Dyn.contains, hashable_str,
+    if_true, pure_ok, h1, Dyn.getItem, h2, Dyn.Val.isNone]
+  cases Factory.sectionOf f "Model" with
+  | none => rfl
+  | some s =>
+    simp only [Option.isSome_some, if_true, Option.map_some, optV, bind_ok]
+    cases SrcC15.generate_chemistry_profile w.ext (.obj (.parser f)) with
+    | error e => rfl
+    | ok chem =>
+      simp only [bind_ok]
+      cases SrcC15.generate_pressure_profile w.ext (.obj (.parser f)) with
+      | error e => rfl
+      | ok pres =>
+        simp only [bind_ok]
+        cases SrcC15.generate_temperature_profile w.ext (.obj (.parser f)) with
+        | error e => rfl
+        | ok temp =>
+          simp only [bind_ok]
+          cases SrcC15.generate_planet w.ext (.obj (.parser f)) with
+          | error e => rfl
+          | ok planet =>
+            simp only [bind_ok]
+            cases SrcC15.generate_star w.ext (.obj (.parser f)) with
+            | error e => rfl
+            | ok star =>
+              simp only [bind_ok]
+              cases SrcC15.create_model w.ext (.dict (embSec s.scalars s.subs)) chem temp pres planet star obs <;> rfl
+
+/-- `Factory.createModel` on a `[Model]` section with the constructor calls left to the world (the RHS of `src_create_model`) -/
+def modelV (w : World) (hasChemistry : Bool) (s : Sec) : M V :=
+  match Factory.determineKlass (w.reg.sec "model") w.customs "model" "model_type" s.scalars with
+  | .error e => .error (errExc e)
+  | .ok (cfg1, r) =>
+    if !hasChemistry then .error .AttributeError
+    else (w.call (robjO r) [] (embKw (modelKwargs r cfg1)) >>= modelTail w s.subs cfg1) >>= fun p => pure p.1
+
+/-- the hypotheses of `src_create_model` for the `[Model]` section of a file -/
+def ModelSection (w : World) (f : InputFile) : Prop :=
+  ∀ s, Factory.sectionOf f "Model" = some s →
+    ((s.scalars.map (·.1)) ++ s.subs.map (·.1)).Nodup ∧ (∀ sub ∈ s.subs, KeysNodup sub.2) ∧
+    (∀ kv ∈ s.scalars, Factory.lookup (w.reg.sec "contribution").classes kv.1 = none) ∧
+    KeyFree (subsEmb s.subs) "model_type" ∧ KeyFree (subsEmb s.subs) "python_file"
+
+/-- **`generate_model()`** is the `model` slot of `Factory.expected` — `createModel` on the `[Model]` section, told
+    whether the file has a `[Chemistry]` section — in a world where the generated components are the values the model's
+    `Value.ref` names stand for (`None` for the chemistry of a file without `[Chemistry]`) -/
+theorem src_generate_model_refs (w : World) (hw : WorldOK w) (hcall : CallOK w) (f : InputFile) (hm : ModelSection w f)
+    (hchem : SrcC15.generate_chemistry_profile w.ext (.obj (.parser f))
+      = .ok (gasArg (Factory.sectionOf f "Chemistry").isSome))
+    (hpres : SrcC15.generate_pressure_profile w.ext (.obj (.parser f)) = .ok (emb (.ref "pressure")))
+    (htemp : SrcC15.generate_temperature_profile w.ext (.obj (.parser f)) = .ok (emb (.ref "temperature")))
+    (hplanet : SrcC15.generate_planet w.ext (.obj (.parser f)) = .ok (emb (.ref "planet")))
+    (hstar : SrcC15.generate_star w.ext (.obj (.parser f)) = .ok (emb (.ref "star"))) :
+    SrcC15.generate_model w.ext (.obj (.parser f)) .none .none .none .none .none (emb (.ref "observation"))
+      = optV ((Factory.sectionOf f "Model").map (modelV w (Factory.sectionOf f "Chemistry").isSome)) := by
+  rw [src_generate_model]
+  cases hs : Factory.sectionOf f "Model" with
+  | none => rfl
+  | some s =>
+    obtain ⟨a1, a2, a3, a4, a5⟩ := hm s hs
+    simp only [Option.map_some, optV, hchem, hpres, htemp, hplanet, hstar, bind_ok,
+      src_create_model w hw hcall s.scalars s.subs _ a1 a2 a3 a4 a5, modelV]
+    cases Factory.determineKlass (w.reg.sec "model") w.customs "model" "model_type" s.scalars with
+    | error e => rfl
+    | ok p =>
+      obtain ⟨cfg1, r⟩ := p
+      simp only []
+      cases (Factory.sectionOf f "Chemistry").isSome <;> rfl
+
+/-- `modelV` is the model's `createModel` once the constructor calls are the model's `instantiate` (parameter names
+    distinct): the model component and its contributions, each contribution then added by `add_contribution` -/
+theorem modelV_eq_createModel (w : World) (comp : Component → V)
+    (hinst : ∀ r kw, w.call (robjO r) [] (embKw kw) = embE comp (Factory.instantiate r kw)) (hnd : ParamsNodup w)
+    (hndc : ∀ k ∈ (w.reg.sec "contribution").classes, KeysNodup k.kwargs) (hasChemistry : Bool) (s : Sec) :
+    modelV w hasChemistry s
+      = match Factory.createModel w.reg w.customs hasChemistry s with
+        | .error e => .error (errExc e)
+        | .ok g => addContribs w (comp g.model) (g.contributions.map comp) := by
+  unfold modelV Factory.createModel
+  cases hd : Factory.determineKlass (w.reg.sec "model") w.customs "model" "model_type" s.scalars with
+  | error e => rfl
+  | ok p =>
+    obtain ⟨cfg1, r⟩ := p
+    have hk : kwargDictP r = Factory.kwargDict r := kwargDictP_eq r (fun k hr => hnd _ _ _ cfg1 k (hr ▸ hd))
+    cases hasChemistry with
+    | false => rfl
+    | true =>
+      simp only [modelKwargs, hk, hinst, bind, Except.bind, Bool.not_true, Bool.false_eq_true, if_false, modelTail,
+        contribsV_eq_contribsOf w (w.reg.sec "contribution") comp (fun k kw => hinst (.plain k) kw) hndc,
+        Factory.generateContributions]
+      cases Factory.instantiate r _ with
+      | error e => rfl
+      | ok m =>
+        simp only [embE]
+        cases Factory.contribsOf (w.reg.sec "contribution") s.subs with
+        | error e => rfl
+        | ok cs =>
+          simp only [embE]
+          by_cases ha : (s.subs.all fun sub => (Factory.lookup (w.reg.sec "contribution").classes sub.1).isSome) = true
+          · simp only [ha, if_true, pure, Except.pure]
+            cases addContribs w (comp m) (cs.map comp) <;> rfl
+          · simp only [ha, Bool.false_eq_true, if_false]
+            rfl
+
 
 end Taurex.C15Src
